@@ -402,3 +402,305 @@ crate::kproof!(cut, 6, fn m92_percentile_list2_any() {
     let _ = BB::Percentile.call(crate::av![l, Value::Number(p)], heap.clone(), arena::env(), 0, "");
     std::mem::forget(heap);
 });
+
+// ---- why is Expr::Call / Into through evaluate_ast slow even with FunctionDef::call stubbed? ----
+use blots_core::ast::*;
+use blots_core::expressions::evaluate_ast;
+use blots_core::functions::BuiltInFunction as BF;
+macro_rules! probe_callstub {
+    ($name:ident, $body:block) => {
+        #[cfg(kani)]
+        #[kani::proof]
+        #[kani::unwind(5)]
+        #[kani::stub(std::hash::RandomState::new, crate::util::stub_random_state_new)]
+        #[kani::stub(alloc::alloc::dealloc, crate::util::stub_dealloc)]
+        #[kani::stub(alloc::alloc::dealloc_nonnull, crate::util::stub_dealloc_nonnull)]
+        #[kani::stub(alloc::alloc::realloc, crate::util::stub_realloc)]
+        #[kani::stub(alloc::alloc::realloc_nonnull, crate::util::stub_realloc_nonnull)]
+        #[kani::stub(std::backtrace::Backtrace::capture, crate::util::stub_backtrace_capture)]
+        #[kani::stub(alloc::fmt::format, crate::util::stub_format)]
+        #[kani::stub(blots_core::values::Value::stringify, crate::util::stub_stringify)]
+        #[kani::stub(blots_core::units::convert, crate::util::stub_units_convert)]
+        #[kani::stub(::anyhow::Error::msg, crate::util::stub_anyhow_msg_panic)]
+        #[kani::stub(::anyhow::__private::format_err, crate::util::stub_anyhow_format_err_panic)]
+        #[kani::stub(std::time::Instant::now, crate::util::stub_instant_now)]
+        #[kani::stub(std::sync::Mutex::lock, crate::util::stub_mutex_lock)]
+        #[kani::stub(blots_core::functions::FunctionDef::call, crate::util::stub_function_def_call_record_depth)]
+        fn $name() $body
+    };
+}
+probe_callstub!(m95_call_only_concrete_depth, {
+    let x: f64 = kani::any();
+    let heap = arena::heap();
+    let bare = arena::call(Expr::BuiltIn(BF::Abs), arena::args1(num(x)));
+    let r0 = evaluate_ast(&bare, heap.clone(), arena::env(), 0, src());
+    assert!(r0.is_ok());
+    std::mem::forget(bare);
+    std::mem::forget(heap);
+});
+probe_callstub!(m96_into_only_concrete_depth, {
+    let x: f64 = kani::any();
+    let heap = arena::heap();
+    let e = arena::binop(BinaryOp::Into, num(x), Expr::BuiltIn(BF::Abs));
+    let r0 = evaluate_ast(&e, heap.clone(), arena::env(), 0, src());
+    assert!(r0.is_ok());
+    std::mem::forget(e);
+    std::mem::forget(heap);
+});
+probe_callstub!(m97_builtin_expr_only, {
+    let heap = arena::heap();
+    let e = sp(Expr::BuiltIn(BF::Abs));
+    let r0 = evaluate_ast(&e, heap.clone(), arena::env(), 0, src());
+    assert!(matches!(r0, Ok(Value::BuiltIn(BF::Abs))));
+    std::mem::forget(e);
+    std::mem::forget(heap);
+});
+probe_callstub!(m98_add_of_two_numbers, {
+    let x: f64 = kani::any();
+    let heap = arena::heap();
+    let e = arena::binop(BinaryOp::Add, num(x), num(1.0));
+    let r0 = evaluate_ast(&e, heap.clone(), arena::env(), 0, src());
+    assert!(r0.is_ok());
+    std::mem::forget(e);
+    std::mem::forget(heap);
+});
+probe_callstub!(m95b_call_no_args, {
+    let heap = arena::heap();
+    let bare = arena::call(Expr::BuiltIn(BF::Abs), Vec::new());
+    let r0 = evaluate_ast(&bare, heap.clone(), arena::env(), 0, src());
+    assert!(r0.is_ok());
+    std::mem::forget(bare);
+    std::mem::forget(heap);
+});
+probe_callstub!(m95c_call_marker_on_arg_tag, {
+    let x: f64 = kani::any();
+    let e = Expr::Call { func: Box::new(sp(Expr::BuiltIn(BF::Abs))), args: vec![sp(num(x))] };
+    match &e {
+        Expr::Call { func, args } => {
+            assert!(args.len() == 1, "P args len (plain heap)");
+            assert!(matches!(func.node, Expr::BuiltIn(_)), "P func tag (plain heap)");
+            assert!(matches!(args[0].node, Expr::Number(_)), "P arg tag (plain heap)");
+        }
+        _ => panic!("call tag"),
+    }
+    std::mem::forget(e);
+    let args = arena::args1(num(x));
+    let f = arena::bx(Expr::BuiltIn(BF::Abs));
+    let fp = &*f as *const SpannedExpr as usize;
+    let ap = args.as_ptr() as usize;
+    let e = Expr::Call { func: f, args };
+    match &e {
+        Expr::Call { func, args } => {
+            assert!(&**func as *const SpannedExpr as usize == fp, "Q func pointer preserved");
+            assert!(args.as_ptr() as usize == ap, "Q args pointer preserved");
+            assert!(args.len() == 1, "Q args len");
+            assert!(args.capacity() == 1, "Q args cap");
+        }
+        _ => panic!("call tag"),
+    }
+    std::mem::forget(e);
+});
+
+// ---- Kani layout probe: struct-like enum variant mixing a Box and a Vec --------------------------
+#[repr(u64)]
+pub enum TU { A(u64), C { f: Box<u64>, v: Vec<u64> }, D { v: Vec<u64>, f: Box<u64> }, E { f: Box<u64>, g: Box<u64>, h: Box<u64> } }
+pub enum TR { A(u64), C { f: Box<u64>, v: Vec<u64> }, D { v: Vec<u64>, f: Box<u64> } }
+#[cfg(kani)]
+#[kani::proof]
+#[kani::unwind(3)]
+fn m99_enum_variant_layout() {
+    let b = Box::new(7u64);
+    let bp = &*b as *const u64 as usize;
+    let v = vec![1u64];
+    let vp = v.as_ptr() as usize;
+    let e = TU::C { f: b, v };
+    match &e {
+        TU::C { f, v } => {
+            assert!(&**f as *const u64 as usize == bp, "TU::C f preserved");
+            assert!(v.as_ptr() as usize == vp, "TU::C v preserved");
+            assert!(v.len() == 1, "TU::C len");
+        }
+        _ => panic!("tag"),
+    }
+    std::mem::forget(e);
+    let b = Box::new(7u64);
+    let bp = &*b as *const u64 as usize;
+    let v = vec![1u64];
+    let vp = v.as_ptr() as usize;
+    let e = TU::D { v, f: b };
+    match &e {
+        TU::D { f, v } => {
+            assert!(&**f as *const u64 as usize == bp, "TU::D f preserved");
+            assert!(v.as_ptr() as usize == vp, "TU::D v preserved");
+        }
+        _ => panic!("tag"),
+    }
+    std::mem::forget(e);
+    let b = Box::new(7u64);
+    let bp = &*b as *const u64 as usize;
+    let v = vec![1u64];
+    let vp = v.as_ptr() as usize;
+    let e = TR::C { f: b, v };
+    match &e {
+        TR::C { f, v } => {
+            assert!(&**f as *const u64 as usize == bp, "TR::C f preserved");
+            assert!(v.as_ptr() as usize == vp, "TR::C v preserved");
+        }
+        _ => panic!("tag"),
+    }
+    std::mem::forget(e);
+    let (b1, b2, b3) = (Box::new(1u64), Box::new(2u64), Box::new(3u64));
+    let (p1, p2, p3) = (&*b1 as *const u64 as usize, &*b2 as *const u64 as usize, &*b3 as *const u64 as usize);
+    let e = TU::E { f: b1, g: b2, h: b3 };
+    match &e {
+        TU::E { f, g, h } => {
+            assert!(&**f as *const u64 as usize == p1 && &**g as *const u64 as usize == p2 && &**h as *const u64 as usize == p3, "TU::E preserved");
+        }
+        _ => panic!("tag"),
+    }
+    std::mem::forget(e);
+}
+
+#[cfg(kani)]
+#[kani::proof]
+#[kani::unwind(3)]
+fn m99b_expr_variant_layout() {
+    fn bxp(e: Expr) -> (Box<SpannedExpr>, usize) {
+        let b = Box::new(sp(e));
+        let p = &*b as *const SpannedExpr as usize;
+        (b, p)
+    }
+    // Conditional
+    let (a, ap) = bxp(Expr::Null);
+    let (b, bp) = bxp(Expr::Null);
+    let (c, cp) = bxp(Expr::Null);
+    let e = Expr::Conditional { condition: a, then_expr: b, else_expr: c };
+    match &e {
+        Expr::Conditional { condition, then_expr, else_expr } => {
+            assert!(&**condition as *const SpannedExpr as usize == ap, "Conditional condition preserved");
+            assert!(&**then_expr as *const SpannedExpr as usize == bp, "Conditional then preserved");
+            assert!(&**else_expr as *const SpannedExpr as usize == cp, "Conditional else preserved");
+        }
+        _ => panic!("tag"),
+    }
+    std::mem::forget(e);
+    // BinaryOp
+    let (a, ap) = bxp(Expr::Null);
+    let (b, bp) = bxp(Expr::Null);
+    let e = Expr::BinaryOp { op: BinaryOp::Into, left: a, right: b };
+    match &e {
+        Expr::BinaryOp { op, left, right } => {
+            assert!(matches!(op, BinaryOp::Into), "BinaryOp op preserved");
+            assert!(&**left as *const SpannedExpr as usize == ap, "BinaryOp left preserved");
+            assert!(&**right as *const SpannedExpr as usize == bp, "BinaryOp right preserved");
+        }
+        _ => panic!("tag"),
+    }
+    std::mem::forget(e);
+    // Access
+    let (a, ap) = bxp(Expr::Null);
+    let (b, bp) = bxp(Expr::Null);
+    let e = Expr::Access { expr: a, index: b };
+    match &e {
+        Expr::Access { expr, index } => {
+            assert!(&**expr as *const SpannedExpr as usize == ap, "Access expr preserved");
+            assert!(&**index as *const SpannedExpr as usize == bp, "Access index preserved");
+        }
+        _ => panic!("tag"),
+    }
+    std::mem::forget(e);
+    // DoBlock
+    let r = Box::new(Commented::new(sp(Expr::Null)));
+    let rp = &*r as *const Commented<SpannedExpr> as usize;
+    let v: Vec<Commented<SpannedExpr>> = Vec::new();
+    let e = Expr::DoBlock { statements: v, return_expr: r };
+    match &e {
+        Expr::DoBlock { statements, return_expr } => {
+            assert!(statements.len() == 0, "DoBlock statements preserved");
+            assert!(&**return_expr as *const Commented<SpannedExpr> as usize == rp, "DoBlock return preserved");
+        }
+        _ => panic!("tag"),
+    }
+    std::mem::forget(e);
+    // UnaryOp
+    let (a, ap) = bxp(Expr::Null);
+    let e = Expr::UnaryOp { op: UnaryOp::Negate, expr: a };
+    match &e {
+        Expr::UnaryOp { op, expr } => {
+            assert!(matches!(op, UnaryOp::Negate), "UnaryOp op preserved");
+            assert!(&**expr as *const SpannedExpr as usize == ap, "UnaryOp expr preserved");
+        }
+        _ => panic!("tag"),
+    }
+    std::mem::forget(e);
+    // Call { func, args } built by projection writes over a dummy aggregate
+    let (f, fp) = bxp(Expr::Null);
+    let v: Vec<SpannedExpr> = vec![sp(Expr::Null)];
+    let vp = v.as_ptr() as usize;
+    let (dummy, _) = bxp(Expr::Null);
+    let mut e = Expr::Call { func: dummy, args: Vec::new() };
+    if let Expr::Call { func, args } = &mut e {
+        unsafe {
+            std::ptr::write(func, f);
+            std::ptr::write(args, v);
+        }
+    }
+    match &e {
+        Expr::Call { func, args } => {
+            assert!(&**func as *const SpannedExpr as usize == fp, "Call func preserved (projection writes)");
+            assert!(args.as_ptr() as usize == vp, "Call args preserved (projection writes)");
+            assert!(args.len() == 1, "Call args len (projection writes)");
+        }
+        _ => panic!("tag"),
+    }
+    let s = sp(e);
+    match &s.node {
+        Expr::Call { func, args } => {
+            assert!(&**func as *const SpannedExpr as usize == fp, "Call func preserved after move into Spanned");
+            assert!(args.as_ptr() as usize == vp, "Call args preserved after move into Spanned");
+        }
+        _ => panic!("tag"),
+    }
+    let b = Box::new(s);
+    match &b.node {
+        Expr::Call { func, args } => {
+            assert!(&**func as *const SpannedExpr as usize == fp, "Call func preserved after move into Box");
+            assert!(args.as_ptr() as usize == vp, "Call args preserved after move into Box");
+        }
+        _ => panic!("tag"),
+    }
+    std::mem::forget(b);
+}
+
+#[inline(never)]
+fn marker2(n: u32) -> u32 { if n == 0 { 0 } else { marker2(n - 1) + 1 } }
+#[inline(never)]
+fn marker3(n: u32) -> u32 { if n == 0 { 0 } else { marker3(n - 1) + 1 } }
+static mut TPL_NODE: SpannedExpr = Spanned { node: Expr::BuiltIn(BF::Abs), span: Span { start_byte: 0, end_byte: 0, start_line: 1, start_col: 1 } };
+static mut TPL_CALL: Expr = Expr::Call { func: unsafe { std::mem::transmute::<*const SpannedExpr, Box<SpannedExpr>>(&raw const TPL_NODE) }, args: Vec::new() };
+#[cfg(kani)]
+#[kani::proof]
+#[kani::unwind(3)]
+fn m99c_call_tag_constancy() {
+    // (1) projection-write workaround: is func's tag a symex constant?
+    let e1 = arena::call_e(Expr::BuiltIn(BF::Abs), Vec::new());
+    if let Expr::Call { func, args } = &e1 {
+        if !matches!(func.node, Expr::BuiltIn(_)) { marker(kani::any()); }
+        if args.len() != 0 { marker2(kani::any()); }
+    } else { marker3(kani::any()); }
+    std::mem::forget(e1);
+}
+#[cfg(kani)]
+#[kani::proof]
+#[kani::unwind(3)]
+fn m99d_call_template_constancy() {
+    // (2) const-initialised template read through projections
+    let e2 = unsafe { std::ptr::read(&raw const TPL_CALL) };
+    if let Expr::Call { func, args } = &e2 {
+        assert!(matches!(func.node, Expr::BuiltIn(_)), "template func tag");
+        assert!(args.len() == 0, "template args len");
+        if !matches!(func.node, Expr::BuiltIn(_)) { marker(kani::any()); }
+        if args.len() != 0 { marker2(kani::any()); }
+    } else { marker3(kani::any()); }
+    std::mem::forget(e2);
+}
